@@ -162,10 +162,14 @@ def main():
         except Exception:
             print(json.dumps({"digests": [], "errors": ["setup: " + traceback.format_exc()[-600:]], "setup_failed": True}))
             return
+    torch.set_num_threads(2)  # a process-wide numeric setting of the caller: no library call may change it behind the caller's back
     for vi, var in enumerate(job["variants"]):
         try:
             prelude(var.get("prelude", []))
             outs.append(seeded_call(var.get("logs"), vi, reuse_settings=bool(var.get("reuse_settings"))))
+            if torch.get_num_threads() != 2 and outs[-1] is not None:
+                outs[-1] = dict(outs[-1], final=outs[-1]["final"] + f":torch-threads-changed-to-{torch.get_num_threads()}")
+                torch.set_num_threads(2)
         except Exception as e:
             outs.append(None)
             errors.append({"variant": vi, "type": type(e).__name__, "msg": str(e)[:300], "tb": traceback.format_exc()[-3000:]})
